@@ -515,6 +515,7 @@ def u4(chk):
     e.models.pop(f"{EC}:check_comptime_arg", None)
 
     array_literal_threading(chk, e, mk_ty, expected_checks)
+    args_list_untouched(chk)
 
     instantiation_checked(chk, e)
 
@@ -804,6 +805,76 @@ try:
         except GuppyError as ex:
             res[name] = "rejected:" + type(ex.error).__name__
     out = {"violates": res["bad"] == "accepted" or res["ok"] != "accepted", "observed": res, "required": "want(mk(3, True)) needs N = K with K = int and N = bool: no instantiation, must be rejected; want(mk(3, 4)) must be accepted"}
+except Exception as ex:
+    out = {"violates": False, "error": repr(ex)[:300]}
+shutil.rmtree(d, ignore_errors=True)
+print(json.dumps(out))
+'''
+
+
+def args_list_untouched(chk, tag=""):
+    """type_check_args (checker/expr_checker.py) leaves the caller's argument list alone: it returns a new
+    list of checked arguments and does not write into `inputs`.  The callers rely on it — check_call
+    first synthesises the call and, when inference fails, checks THE SAME argument list again with the
+    expected type; an overloaded call among the arguments must then be resolved afresh (a node kept from
+    the first pass would stay bound to the variant chosen without the expected type).  Shared with C15."""
+    EC = "guppylang_internals.checker.expr_checker"
+    e = mk_engine(chk)
+    e.func_info(EC, "type_check_args")
+    m = e.module(EC)
+    e.models[f"{EC}:check_num_args"] = lambda it, a, k: None
+    for n in (1, 2, 3):
+        def t(it, n=n):
+            f = it.lookup_global(m, "type_check_args")
+            IF = it.lookup_global(e.module(TY), "InputFlags")
+            e.models[f"{EC}:ExprChecker.check"] = lambda it2, a, k: (("RESOLVED", a[1]), {})
+            tys = [SObj(ClassVal("Ty", builtin=True), {"substitute": Builtin("substitute", lambda sub, i=i: f"t{i}"), "unsolved_vars": set()}) for i in range(n)]
+            out = SObj(ClassVal("Ty", builtin=True), {"unsolved_vars": set()})
+            fty = SObj(ClassVal("FunctionType", builtin=True), {"parametrized": False, "comptime_args": [], "output": out,
+                                                               "inputs": [SObj(ClassVal("FuncInput", builtin=True), {"ty": tys[i], "flags": it.getattr(IF, "NoFlags")}) for i in range(n)]})
+            ins = [f"el{i}" for i in range(n)]
+            r = it.call(f, [ins, fty, {}, None, "NODE"], {})
+            return r, ins
+        paths = e.explore(t)
+
+        def post(p, n=n):
+            if p.kind != "return":
+                return z3.BoolVal(False)
+            (args, _), ins = p.value
+            return z3.BoolVal(ins == [f"el{i}" for i in range(n)] and args is not ins and args == [("RESOLVED", f"el{i}") for i in range(n)])
+        chk.prove_paths(f"{tag}type_check_args[{n}]:the-caller's-argument-list-is-not-written-to(the-checked-arguments-are-returned-in-a-new-list)", paths, post, func=f"{EC}:type_check_args",
+                        replay=lambda m_: {"script": REPLAY_SECOND_PASS, "input": {}})
+    e.models.pop(f"{EC}:ExprChecker.check", None)
+    chk.use_engine(e)
+
+
+REPLAY_SECOND_PASS = r'''
+import tempfile, importlib.util, os, sys, shutil
+from guppylang_internals.error import GuppyError
+src = """from guppylang import guppy
+from guppylang.std.option import Option, nothing
+T = guppy.type_var("T", copyable=True, droppable=True)
+S = guppy.type_var("S", copyable=True, droppable=True)
+@guppy.declare
+def to_int(x: int) -> int: ...
+@guppy.declare
+def to_bool(x: int) -> bool: ...
+@guppy.overload(to_int, to_bool)
+def conv(x): ...
+@guppy.declare
+def pick(x: T, y: Option[S]) -> tuple[T, Option[S]]: ...
+@guppy
+def main() -> None:
+    r: tuple[bool, Option[int]] = pick(conv(1), nothing())
+"""
+d = tempfile.mkdtemp(dir=os.environ.get("TMPDIR", "/var/tmp")); fn = os.path.join(d, "replay_c12s.py"); open(fn, "w").write(src)
+spec = importlib.util.spec_from_file_location("replay_c12s", fn); m = importlib.util.module_from_spec(spec); sys.modules["replay_c12s"] = m
+try:
+    spec.loader.exec_module(m)
+    try:
+        m.main.check(); out = {"violates": False, "observed": "accepted"}
+    except GuppyError as ex:
+        out = {"violates": True, "observed": "rejected: " + type(ex.error).__name__, "required": "conv(1) must resolve to to_bool once the expected type tuple[bool, Option[int]] is known"}
 except Exception as ex:
     out = {"violates": False, "error": repr(ex)[:300]}
 shutil.rmtree(d, ignore_errors=True)
